@@ -7,7 +7,8 @@ CONSTANTS
   IdleDurs = {99950, 100000}
   Fixes = {1, 3}
   MaxPend = 2
-  MaxOps = 5
+  MaxOps = 6
+  TrackHist = TRUE
   Dev_FixedIgnored = FALSE
   Dev_UpdateZero = FALSE
   Dev_LimitIgnoresAdaptive = FALSE
